@@ -25,6 +25,7 @@ pub(crate) fn point(name: &'static str) {
 /// Pass-through wrappers around the synchronization primitives of this crate that report to the
 /// point hook (as `"sync"`) before every operation, so that a harness can park a thread between
 /// any two of them - including in windows that only exist after a change to the code.
+#[allow(dead_code, reason = "complete wrappers, whatever the crate uses today")]
 pub(crate) mod sync {
     use std::sync::Arc;
     use std::sync::atomic::Ordering;
@@ -79,6 +80,31 @@ pub(crate) mod sync {
         pub(crate) fn fetch_add(&self, value: u64, order: Ordering) -> u64 {
             point("sync");
             self.0.fetch_add(value, order)
+        }
+    }
+
+    /// `std::sync::OnceLock` reporting every operation to the point hook.
+    #[derive(Debug)]
+    pub(crate) struct OnceLock<T>(std::sync::OnceLock<T>);
+
+    impl<T> OnceLock<T> {
+        pub(crate) const fn new() -> Self {
+            Self(std::sync::OnceLock::new())
+        }
+
+        pub(crate) fn get(&self) -> Option<&T> {
+            point("sync");
+            self.0.get()
+        }
+
+        pub(crate) fn set(&self, value: T) -> Result<(), T> {
+            point("sync");
+            self.0.set(value)
+        }
+
+        pub(crate) fn get_or_init<F: FnOnce() -> T>(&self, f: F) -> &T {
+            point("sync");
+            self.0.get_or_init(f)
         }
     }
 }
